@@ -18,8 +18,11 @@
 //!   vec <fld> <ext> <n> <seed>                            add_in_place, mul_acc
 //!   merkle <fld> <hash> <leaves> <seed>                   MerkleTree::new: root, all nodes (from the openings of all leaves),
 //!                                                         and build_merkle_nodes / concurrent::build_merkle_nodes called directly
-//!   lde <fld> <ext> <cols> <n> <blowup> <seed>            ColMatrix::interpolate_columns, evaluate_columns_over, commit_to_rows;
-//!                                                         RowMatrix::evaluate_polys_over::<8>, commit_to_rows
+//!   lde <fld> <ext> <cols> <n> <blowup> <seed> [N]        ColMatrix::interpolate_columns(_into), evaluate_columns_over, commit_to_rows,
+//!                                                         get_evaluation_offsets; RowMatrix::evaluate_polys_over::<N>, evaluate_polys::<N>,
+//!                                                         commit_to_rows (N = segment width, default 8)
+//! Seeds >= 1_000_000 select structured data (all zero, constant, single non-zero, alternating, low degree, all p-1, runs);
+//! domain offsets are the generator for seeds divisible by 3 and another element otherwise.
 //!   fold <fld> <ext> <N> <n> <seed>                       transpose_slice, fri::folding::apply_drp, fri::utils::hash_values
 //!   fri <fld> <ext> <hash> <lde> <blowup> <folding> <rem> <seed>   FriProver: layer commitments, proof bytes
 //!   fill <fld> <width> <len> <fraglen> <seed>             TraceTable::fragments(..).for_each(fill)
@@ -117,10 +120,46 @@ fn rand_base<B: Fld>(g: &mut Sm) -> B {
     B::from_word(w % B::MOD)
 }
 
+/// `n` elements from `seed`; seeds >= 1_000_000 select STRUCTURED data (pattern = seed / 1_000_000): 1 all zero, 2 constant,
+/// 3 a single non-zero entry, 4 alternating two values, 5 zero beyond the first quarter (low degree), 6 all p-1, 7 runs of 3
 fn rand_elems<B: Fld, E: FieldElement<BaseField = B>>(seed: u64, n: usize) -> Vec<E> {
     let mut g = Sm(seed);
-    let base: Vec<B> = (0..n * E::EXTENSION_DEGREE).map(|_| rand_base::<B>(&mut g)).collect();
+    let d = E::EXTENSION_DEGREE;
+    let mut base: Vec<B> = (0..n * d).map(|_| rand_base::<B>(&mut g)).collect();
+    let el = |base: &Vec<B>, i: usize| -> Vec<B> { base[i * d..(i + 1) * d].to_vec() };
+    if n > 1 {
+        let (e0, e1) = (el(&base, 0), el(&base, 1));
+        for i in 0..n {
+            let v: Option<Vec<B>> = match seed / 1_000_000 {
+                1 => Some(vec![B::ZERO; d]),
+                2 => Some(e0.clone()),
+                3 => Some(if i == n / 2 + 1 { e0.clone() } else { vec![B::ZERO; d] }),
+                4 => Some(if i % 2 == 0 { e0.clone() } else { e1.clone() }),
+                5 => if i >= (n / 4).max(1) { Some(vec![B::ZERO; d]) } else { None },
+                6 => Some(vec![B::from_word(B::MOD - 1); d]),
+                7 => Some(el(&base, (i / 3) * 3 % n)),
+                _ => None,
+            };
+            if let Some(v) = v {
+                base[i * d..(i + 1) * d].copy_from_slice(&v);
+            }
+        }
+    }
     E::slice_from_base_elements(&base).to_vec()
+}
+
+/// the domain offset of an op: the field's generator for seeds divisible by 3, another non-zero element otherwise
+fn offset_for<B: Fld>(seed: u64) -> B {
+    if seed % 3 == 0 {
+        return B::GENERATOR;
+    }
+    let mut g = Sm(seed ^ 0x0ff5e7);
+    loop {
+        let x = rand_base::<B>(&mut g);
+        if x != B::ZERO {
+            return x;
+        }
+    }
 }
 
 /// canonical serialisation (Serializable::write_into) of a slice — for the 62-bit field the raw words may
@@ -155,7 +194,7 @@ fn math_op<B: Fld, E: FieldElement<BaseField = B>>(t: &[&str]) -> Option<Section
             let (n, blowup, seed) = (pu(n)?, pu(blowup)?, p64(seed)?);
             let p: Vec<E> = rand_elems::<B, E>(seed, n);
             let tw = fft::get_twiddles::<B>(n);
-            let r = fft::evaluate_poly_with_offset(&p, &tw, B::GENERATOR, blowup);
+            let r = fft::evaluate_poly_with_offset(&p, &tw, offset_for::<B>(seed), blowup);
             s.push(("evaluations".into(), ser(&r)));
         },
         ["fft", _, _, "interp", n, seed] => {
@@ -169,7 +208,7 @@ fn math_op<B: Fld, E: FieldElement<BaseField = B>>(t: &[&str]) -> Option<Section
             let (n, seed) = (pu(n)?, p64(seed)?);
             let mut v: Vec<E> = rand_elems::<B, E>(seed, n);
             let itw = fft::get_inv_twiddles::<B>(n);
-            fft::interpolate_poly_with_offset(&mut v, &itw, B::GENERATOR);
+            fft::interpolate_poly_with_offset(&mut v, &itw, offset_for::<B>(seed));
             s.push(("coefficients".into(), ser(&v)));
         },
         ["tw", _, n] => {
@@ -212,18 +251,38 @@ fn math_op<B: Fld, E: FieldElement<BaseField = B>>(t: &[&str]) -> Option<Section
             winter_math::mul_acc::<B, E>(&mut a, &c, k[0]);
             s.push(("mul_acc".into(), ser(&a)));
         },
-        ["lde", _, _, cols, n, blowup, seed] => {
+        ["lde", _, _, cols, n, blowup, seed, ..] if t.len() <= 8 => {
             let (cols, n, blowup, seed) = (pu(cols)?, pu(n)?, pu(blowup)?, p64(seed)?);
+            let width = match t.get(7) {
+                None => 8,
+                Some(w) => pu(w)?,
+            };
+            let off = offset_for::<B>(seed);
             let values = ColMatrix::new((0..cols).map(|c| rand_elems::<B, E>(seed.wrapping_add(c as u64), n)).collect::<Vec<Vec<E>>>());
             let polys = values.interpolate_columns();
-            s.push(("polys".into(), ser(&(0..cols).flat_map(|c| polys.get_column(c).to_vec()).collect::<Vec<E>>())));
-            let domain = StarkDomain::from_twiddles(fft::get_twiddles::<B>(n), blowup, B::GENERATOR);
+            let flat = |m: &ColMatrix<E>| -> Vec<E> { (0..m.num_cols()).flat_map(|c| m.get_column(c).to_vec()).collect() };
+            s.push(("polys".into(), ser(&flat(&polys))));
+            s.push(("polys_into".into(), ser(&flat(&values.clone().interpolate_columns_into()))));
+            let domain = StarkDomain::from_twiddles(fft::get_twiddles::<B>(n), blowup, off);
             let lde = polys.evaluate_columns_over(&domain);
-            s.push(("col_lde".into(), ser(&(0..cols).flat_map(|c| lde.get_column(c).to_vec()).collect::<Vec<E>>())));
+            s.push(("col_lde".into(), ser(&flat(&lde))));
             s.push(("col_commitment".into(), ser(&[*lde.commit_to_rows::<Blake3_256<B>>().root()])));
-            let rm = RowMatrix::evaluate_polys_over::<8>(&polys, &domain);
-            s.push(("row_lde".into(), ser(rm.data())));
-            s.push(("row_commitment".into(), ser(&[*rm.commit_to_rows::<Blake3_256<B>>().root()])));
+            s.push(("offsets".into(), ser(&winter_prover::matrix::get_evaluation_offsets::<E>(n, blowup, off))));
+            fn rows<B: Fld, E: FieldElement<BaseField = B>, const N: usize>(polys: &ColMatrix<E>, domain: &StarkDomain<B>, blowup: usize, s: &mut Sections) {
+                let rm = RowMatrix::evaluate_polys_over::<N>(polys, domain);
+                s.push(("row_lde".into(), ser(rm.data())));
+                s.push(("row_commitment".into(), ser(&[*rm.commit_to_rows::<Blake3_256<B>>().root()])));
+                let rg = RowMatrix::evaluate_polys::<N>(polys, blowup);
+                s.push(("row_lde_generator_coset".into(), ser(rg.data())));
+            }
+            match width {
+                1 => rows::<B, E, 1>(&polys, &domain, blowup, &mut s),
+                2 => rows::<B, E, 2>(&polys, &domain, blowup, &mut s),
+                4 => rows::<B, E, 4>(&polys, &domain, blowup, &mut s),
+                8 => rows::<B, E, 8>(&polys, &domain, blowup, &mut s),
+                16 => rows::<B, E, 16>(&polys, &domain, blowup, &mut s),
+                _ => return None,
+            }
             let at: Vec<E> = polys.evaluate_columns_at(rand_elems::<B, E>(seed ^ 77, 1)[0]);
             s.push(("columns_at_z".into(), ser(&at)));
         },
@@ -1246,16 +1305,40 @@ impl Prop for P {
         let base: Vec<usize> = if quick { vec![1, 3, 8] } else { all.clone() };
         let wide: Vec<usize> = if quick { vec![2, 5, 16, 33, 64] } else { all.clone() };
         let reps = if quick { 2 } else { 4 };
+        // every line additionally runs on two pool sizes of its own: one in 2..31 and one NON-power of two in 33..63 (where
+        // len mod threads, len / threads and next_power_of_two(threads) all differ from the power-of-two cases)
+        let extras: Vec<(usize, usize)> = (0..8192)
+            .map(|_| {
+                let a = rng.range(2, 31) as usize;
+                let mut b = rng.range(33, 63) as usize;
+                if b.is_power_of_two() {
+                    b += 1;
+                }
+                (a, b)
+            })
+            .collect();
         let sched = |i: usize| -> String {
             // most lines run on the tier's base set; every fourth one on the other sizes as well
-            let ts = if i % 4 == 3 { &wide } else { &base };
-            format!("{} r={}", tl(ts), reps)
+            let mut ts = if i % 4 == 3 { wide.clone() } else { base.clone() };
+            let (a, b) = extras[i % extras.len()];
+            ts.push(a);
+            ts.push(b);
+            format!("{} r={}", tl(&ts), reps)
         };
         let mut i = 0usize;
         let mut line = |s: String, emit: &mut dyn FnMut(String)| {
             i += 1;
             emit(format!("{} {}", s, sched(i)));
         };
+        // seeds: mostly random data, one in six structured (see rand_elems)
+        fn sd(rng: &mut Rng) -> u64 {
+            let r = rng.u64() % 1000;
+            if rng.chance(1, 6) {
+                rng.range(1, 7) * 1_000_000 + r
+            } else {
+                r
+            }
+        }
 
         // ---- partitions (modelled): lengths around the thresholds and ragged lengths x thread counts
         let lens: Vec<usize> = vec![0, 1, 2, 3, 7, 63, 64, 65, 127, 128, 129, 255, 1000, 1023, 1024, 1025, 2047, 2048, 2049, 3000, 4095, 4096, 5000, 8191, 8192, 65536, 65537, 100003];
@@ -1297,21 +1380,83 @@ impl Prop for P {
             emit("miri merkle".to_string());
         }
 
+        // ---- sweeps over EVERY pool size 1..64 for the cheap operations that sit exactly on a concurrency threshold
+        {
+            let every: String = format!("t={} r=1", (1..=64).map(|k| k.to_string()).collect::<Vec<_>>().join(","));
+            let mut ops: Vec<String> = vec![
+                "tw f64 2048".into(),
+                "tw f62 4096".into(),
+                "tw f128 2048".into(),
+                format!("fft f64 1 eval 1024 {}", rng.u64() % 1000),
+                format!("fft f128 1 eval 2048 {}", rng.u64() % 1000),
+                format!("fft f64 2 interp 1024 {}", rng.u64() % 1000),
+                format!("fft f62 1 interpo 1024 {}", rng.u64() % 1000),
+                format!("fft f64 1 interpo 2048 {}", rng.u64() % 1000),
+                format!("fft f64 1 evalo 1024 2 {}", rng.u64() % 1000),
+                format!("fft f128 1 evalo 1024 16 {}", rng.u64() % 1000),
+                format!("series f64 1 65553 {}", rng.u64() % 1000),
+                format!("inv f64 1 65553 {} 1", rng.u64() % 1000),
+                format!("merkle f64 blake3_256 2048 {}", rng.u64() % 1000),
+                format!("lde f64 1 3 128 8 {} 8", rng.u64() % 1000),
+                format!("lde f64 1 17 64 16 {} 8", rng.u64() % 1000),
+                format!("fold f64 1 4 4096 {}", rng.u64() % 1000),
+                format!("fill f64 2 1024 8 {}", rng.u64() % 1000),
+            ];
+            if !quick {
+                ops.push(format!("fft f64 1 eval 4096 {}", rng.u64() % 1000));
+                ops.push(format!("fft f64 3 evalo 2048 4 {}", rng.u64() % 1000));
+                ops.push(format!("merkle f64 rp64_256 2048 {}", rng.u64() % 1000));
+                ops.push(format!("lde f128 1 130 8 8 {} 8", rng.u64() % 1000));
+            }
+            for o in ops {
+                emit(format!("{} {}", o, every));
+            }
+            // one case of each offset-indexed loop beyond 2^16 elements (index arithmetic wider than 16 bits)
+            emit(format!("fft f64 1 interpo 131072 {} t=3,8,33 r=1", rng.u64() % 1000));
+            emit(format!("fft f64 1 evalo 131072 2 {} t=3,8,33 r=1", rng.u64() % 1000));
+            emit(format!("series f64 1 262147 {} t=2,3,64 r=1", rng.u64() % 1000));
+            emit(format!("inv f64 1 262147 {} 1 t=2,3,64 r=1", rng.u64() % 1000));
+        }
+        // ---- batch sizes exactly on, just below and just above the minimum batch sizes: len / P around 1024 (power series,
+        //      batch inversion) for every P = next_power_of_two(threads), threads a power of two and not
+        for pw in [1usize, 2, 4, 8, 16, 32, 64] {
+            let np = if pw <= 2 { pw } else { pw / 2 + 1 }; // rounds up to pw
+            let np2 = if pw <= 2 { pw } else { pw - 1 };
+            for len in [1024 * pw - 1, 1024 * pw, 1024 * pw + 1, 1024 * pw + pw - 1, 1024 * pw + pw, 2048 * pw - 1] {
+                if quick && pw >= 16 && rng.chance(1, 2) {
+                    continue;
+                }
+                let f = *rng.pick(&FLDS);
+                emit(format!("series {} 1 {} {} t={},{},{} r=1", f, len, rng.u64() % 1000, pw, np, np2));
+                emit(format!("inv {} 1 {} {} {} t={},{},{} r=1", f, len, rng.u64() % 1000, rng.below(5), pw, np, np2));
+            }
+        }
+        // ---- rows / P around 128 (row hashing of both matrix types) and around the 1024 of the transposition
+        for pw in [2usize, 4, 16, 64] {
+            for rows in [64 * pw, 128 * pw, 256 * pw] {
+                let b = *rng.pick(&[2usize, 4, 8]);
+                let cols = *rng.pick(&[1usize, 2, 9]);
+                emit(format!("lde f64 1 {} {} {} {} 8 t={},{},{} r=1", cols, rows / b, b, rng.u64() % 1000, pw, pw - 1, (pw / 2).max(1)));
+            }
+        }
+
         // the sections below are generated once in the quick tier, three times (fresh seeds and choices) in the thorough one
         for _pass in 0..(if quick { 1 } else { 3 }) {
             // ---- transforms on both sides of 1024
-            let fft_sizes: Vec<usize> = if quick { vec![256, 512, 1024, 2048, 4096] } else { vec![8, 256, 512, 1024, 2048, 4096, 8192, 16384] };
+            let fft_sizes: Vec<usize> = if quick { vec![256, 512, 1024, 2048, 4096, 8192] } else { vec![8, 256, 512, 1024, 2048, 4096, 8192, 16384] };
             for f in FLDS {
                 for e in exts_of(f) {
                     for &nn in &fft_sizes {
-                        if quick && e != "1" && nn > 2048 {
+                        if quick && (e != "1" && nn > 2048 || nn > 4096 && f != "f64") {
                             continue;
                         }
-                        line(format!("fft {} {} eval {} {}", f, e, nn, rng.u64() % 1000), emit);
-                        line(format!("fft {} {} interp {} {}", f, e, nn, rng.u64() % 1000), emit);
-                        line(format!("fft {} {} interpo {} {}", f, e, nn, rng.u64() % 1000), emit);
-                        let b = *rng.pick(&[2usize, 4, 8]);
-                        line(format!("fft {} {} evalo {} {} {}", f, e, nn, b, rng.u64() % 1000), emit);
+                        line(format!("fft {} {} eval {} {}", f, e, nn, sd(rng)), emit);
+                        line(format!("fft {} {} interp {} {}", f, e, nn, sd(rng)), emit);
+                        line(format!("fft {} {} interpo {} {}", f, e, nn, sd(rng)), emit);
+                        // blowup factors up to the largest one (the coset index is the bit-reversed chunk index)
+                        let bs: Vec<usize> = if nn <= 1024 { vec![2, 4, 8, 16, 32, 64, 128] } else { vec![2, 4, 8, 16] };
+                        let b = *rng.pick(&bs);
+                        line(format!("fft {} {} evalo {} {} {}", f, e, nn, b, sd(rng)), emit);
                     }
                 }
                 for &nn in &fft_sizes {
@@ -1328,9 +1473,9 @@ impl Prop for P {
                             continue;
                         }
                         line(format!("series {} {} {} {}", f, e, nn, rng.u64() % 1000), emit);
-                        line(format!("inv {} {} {} {} {}", f, e, nn, rng.u64() % 1000, rng.below(5)), emit);
+                        line(format!("inv {} {} {} {} {}", f, e, nn, sd(rng), rng.below(5)), emit);
                         if rng.chance(1, 3) {
-                            line(format!("vec {} {} {} {}", f, e, nn, rng.u64() % 1000), emit);
+                            line(format!("vec {} {} {} {}", f, e, nn, sd(rng)), emit);
                         }
                     }
                 }
@@ -1376,6 +1521,15 @@ impl Prop for P {
                         (2, 128, 8),
                         (2, 512, 4),
                         (2, 1024, 8),
+                        // large blowup factors (many cosets of a short polynomial)
+                        (3, 8, 128),
+                        (5, 16, 64),
+                        (2, 32, 32),
+                        (9, 64, 128),
+                        // rows x segments exactly 1024 and just below (the transposition's single-batch limit)
+                        (9, 128, 4),
+                        (9, 64, 4),
+                        (16, 64, 8),
                     ];
                     for (c, nn, b) in shapes {
                         if quick && e != "1" && c * nn > 3000 {
@@ -1384,7 +1538,8 @@ impl Prop for P {
                         if e != "1" && c > 100 {
                             continue;
                         }
-                        line(format!("lde {} {} {} {} {} {}", f, e, c, nn, b, rng.u64() % 1000), emit);
+                        let w = *rng.pick(&[8usize, 8, 8, 4, 16, 2, 1]);
+                        line(format!("lde {} {} {} {} {} {} {}", f, e, c, nn, b, sd(rng), w), emit);
                     }
                 }
             }
@@ -1396,7 +1551,7 @@ impl Prop for P {
                             if quick && (len > 4096 || rng.chance(1, 2)) {
                                 continue;
                             }
-                            line(format!("fold {} {} {} {} {}", f, e, nn, len, rng.u64() % 1000), emit);
+                            line(format!("fold {} {} {} {} {}", f, e, nn, len, sd(rng)), emit);
                         }
                     }
                 }
@@ -1480,7 +1635,7 @@ impl Prop for P {
                 for &d in &degs {
                     let desc = power_desc(nn, d);
                     let cb = desc.min_blowup();
-                    let blowups: Vec<usize> = if quick { vec![cb] } else { [cb, 128].into_iter().filter(|b| *b >= cb && *b <= 128).collect() };
+                    let blowups: Vec<usize> = if quick { vec![if (nn + d as usize) % 3 == 0 && cb < 128 { 128 } else { cb }] } else { [cb, 128].into_iter().filter(|b| *b >= cb && *b <= 128).collect() };
                     for &b in &blowups {
                         let lde = nn * b;
                         let mut opt = None;
@@ -1504,6 +1659,34 @@ impl Prop for P {
                     }
                 }
             }
+        }
+        // constraint-evaluation domains 128..4096 rows (x' = x^3 + 5: ce blowup 4, LDE blowup 8 or 16: the two differ) on pools
+        // for which ce / P is 64, 128 and 256 — the minimum batch size of the inverse-divisor and accumulation loops
+        for nn in [32usize, 64, 128, 256, 512, 1024] {
+            let desc = power_desc(nn, 3);
+            let ce = nn * desc.min_blowup();
+            let b = *rng.pick(&[8usize, 16]);
+            let mut ts: Vec<usize> = [ce / 256, ce / 128, ce / 64].into_iter().filter(|k| *k >= 1 && *k <= 64).collect();
+            if let Some(&m) = ts.last() {
+                if m > 2 {
+                    ts.push(m - 1);
+                }
+            }
+            if ts.is_empty() {
+                continue;
+            }
+            let (mut fo, mut rem) = (2usize, 0usize);
+            for _ in 0..100 {
+                fo = *rng.pick(&[2usize, 4, 8]);
+                rem = *rng.pick(&[0usize, 1, 3, 7]);
+                if fri_well_formed(nn * b, b, fo, rem) {
+                    break;
+                }
+            }
+            let field = *rng.pick(&FieldId::ALL);
+            let hash = *rng.pick(&HashId::for_field(field));
+            let o = OptSpec::new(5, b, 0, 1, fo, rem);
+            emit(format!("{} {} r=1", prove_line(field, hash, &o, rng.u64() % 1000, &desc), tl(&ts)));
         }
         for (field, hash, o, d) in &e2e {
             line(prove_line(*field, *hash, o, rng.u64() % 1000, d), emit);
